@@ -25,12 +25,8 @@ package utils
 //@   modifies nothing
 
 // Rand: rejection sampling over crypto/rand (the source itself is external: any bytes may come back)
-//@ extern crypto/rand.Read
-//@   ensures result0 == len(b) && result1 == nil
-//@   modifies b[:]
-//@ extern (r encoding/binary.bigEndian) Uint32
-//@   requires len(b) >= 4
-//@   modifies nothing
+// (crypto/rand.Read and binary.BigEndian.Uint32 are extern contracts declared once, in the root package's and in
+// internal/wire's contract files; extern contracts are global)
 
 //@ func (r *Rand) Int31
 //@   props C16 C05
